@@ -17,7 +17,7 @@ StarsOnlyLength(c) == \A k \in 1..Len(c.records) : \A j \in 1..Len(c.records[k].
 \* non-interference: the same session with another password of the same length logs exactly the same text
 NonInterference(c) == c.msgs = c.twin_msgs
 \* the session really was a login attempt with the expected outcome (guards against vacuous runs)
-Exercised(c) == c.outcome \in {"accepted", "rejected", "out-of-sequence", "after-login", "over-limit", "abandoned", "unsendable", "scripted", "overlong"} /\ c.observed = c.outcome
+Exercised(c) == c.outcome \in {"accepted", "rejected", "out-of-sequence", "after-login", "over-limit", "abandoned", "unsendable", "scripted", "overlong", "cut"} /\ c.observed = c.outcome
 \* (StarsOnlyLength is what aioftp does today; revealing less than the length is just as good, so it is not demanded)
 Ok(c) == NoSecretInLog(c) /\ NonInterference(c) /\ Exercised(c)
 Init == i = 1
